@@ -132,11 +132,12 @@ Definition write_chunk (r0 : resp) (d : bytes) : resp * wres :=
     else (set_bufs (upd_out r1 b2) None (bodybuf r1), WOk (len d)).
 
 (* Write (repaired) *)
-Definition op_write (r0 : resp) (d : bytes) : resp * wres :=
-  match d with
-  | [] => (r0, WOk 0)
-  | _ =>
-    let r1 := set_hasbody (check_chunked (write_header r0 200 [79;75])) in
+(* the first three calls of Write / Flush / flushResponse: WriteHeader(200), checkChunked *)
+Definition prep0 (r : resp) : resp := check_chunked (write_header r 200 [79;75]).
+
+(* Write of a non-empty slice on a response p on which WriteHeader(200) and checkChunked have been applied *)
+Definition write_core (p : resp) (d : bytes) : resp * wres :=
+    let r1 := set_hasbody p in
     if chunked r1 then write_chunk r1 d else
     let cl := if 0 <? contentLen r1 then contentLen r1 else match h_cl r1 with Some n => n | None => 0 end in
     let r1 := set_written r1 (if 0 <? contentLen r1 then contentLen r1 else cl) (bodyWritten r1) in
@@ -177,7 +178,12 @@ Definition op_write (r0 : resp) (d : bytes) : resp * wres :=
           if (0 <? cl) && (MAXP <=? len nb)
           then (set_bufs (upd_out r3 nb) (buffer r3) (Some []), WOk l)
           else (r3, WOk l)
-    end
+    end.
+
+Definition op_write (r0 : resp) (d : bytes) : resp * wres :=
+  match d with
+  | [] => (r0, WOk 0)
+  | _ => write_core (prep0 r0) d
   end.
 
 Definition op_flush (r0 : resp) : resp :=
